@@ -80,7 +80,11 @@ def _is_int(t) -> bool:
 
 
 def _real(t):
-    return z3.ToReal(t) if _is_int(t) else t
+    if _is_int(t):
+        if z3.is_int_value(t):
+            return z3.RealVal(t.as_long())
+        return z3.ToReal(t)
+    return t
 
 
 # uninterpreted transcendental functions (shared names => congruence across impl/reference)
@@ -91,6 +95,32 @@ UF_LOG = z3.Function("uf_log", _R, _R)
 UF_POW = z3.Function("uf_pow", _R, _R, _R)
 UF_RECIP = z3.Function("uf_recip", _R, _R)
 UF_RND = z3.Function("uf_rnd", _R, _R)
+UF_MUL = z3.Function("uf_mul", _R, _R, _R)
+
+
+def _is_num(t):
+    return z3.is_rational_value(t) or z3.is_int_value(t)
+
+
+def mul_terms(a, b):
+    """a*b; in 'mul_abstract' mode a product of two non-constant terms is an uninterpreted application with ground sign/zero
+    lemmas (all true of the reals => unsat in the abstraction implies unsat in the reals). Used for sign obligations only."""
+    c = _CUR
+    if c is None or not c.mul_abstract or _is_num(a) or _is_num(b):
+        return a * b
+    a, b = _real(a), _real(b)
+    if a.get_id() > b.get_id():
+        a, b = b, a
+    m = UF_MUL(a, b)
+    k = ("mul", a.get_id(), b.get_id())
+    if k not in c._axioms:
+        c._axioms.add(k)
+        c.solver.add(z3.Implies(z3.Or(a == 0, b == 0), m == 0), z3.Implies(z3.And(a != 0, b != 0), m != 0),
+                     z3.Implies(z3.Or(z3.And(a >= 0, b >= 0), z3.And(a <= 0, b <= 0)), m >= 0),
+                     z3.Implies(z3.Or(z3.And(a >= 0, b <= 0), z3.And(a <= 0, b >= 0)), m <= 0))
+        if a.eq(b):
+            c.solver.add(m >= 0)
+    return m
 
 
 class Sym:
@@ -133,19 +163,22 @@ class Sym:
         return self._b(o, lambda a, b: a - b, True)
 
     def __mul__(self, o):
-        return self._b(o, lambda a, b: a * b)
+        return self._b(o, mul_terms)
 
     def __rmul__(self, o):
-        return self._b(o, lambda a, b: a * b, True)
+        return self._b(o, mul_terms, True)
 
     @staticmethod
     def _div(a, b):
         a, b = _real(a), _real(b)
         ctx = cur()
         if ctx is not None and ctx.recip_mode and not z3.is_rational_value(b) and not z3.is_int_value(b):
+            b = z3.simplify(b, som=True)  # canonical form: commutative variants of a denominator share one application
             r = UF_RECIP(b)
-            ctx.axiom(z3.Implies(b != 0, b * r == 1))
-            return a * r
+            ctx.axiom(z3.Implies(b != 0, mul_terms(b, r) == 1))
+            ctx.axiom(z3.And(z3.Implies(b > 0, r > 0), z3.Implies(b < 0, r < 0)))
+            ctx.scratch.setdefault("denominators", []).append(b)
+            return mul_terms(a, r)
         return a / b
 
     def __truediv__(self, o):
@@ -203,7 +236,7 @@ class Sym:
             if n >= 0:
                 r = z3.IntVal(1) if self.is_int else z3.RealVal(1)
                 for _ in range(n):
-                    r = r * self.t
+                    r = mul_terms(r, self.t)
                 return Sym(r)
             return 1 / (self ** (-n))
         if isinstance(e, (float, np.floating)) and float(e) == 0.5:
@@ -211,7 +244,14 @@ class Sym:
         et = lift(e)
         if et is NotImplemented:
             return NotImplemented
-        return Sym(UF_POW(_real(self.t), _real(et)))
+        b, ex = _real(self.t), _real(et)
+        r = UF_POW(b, ex)
+        c = cur()
+        if c is not None:
+            c.axiom(z3.Implies(b >= 0, r >= 0))
+            c.axiom(z3.Implies(z3.And(b == 0, ex > 0), r == 0))
+            c.axiom(z3.Implies(z3.And(b > 0), r > 0))
+        return Sym(r)
 
     def __rpow__(self, b):
         bt = lift(b)
@@ -225,7 +265,7 @@ class Sym:
         r = UF_SQRT(x)
         ctx = cur()
         if ctx is not None:
-            ctx.axiom(z3.Implies(x >= 0, z3.And(r >= 0, r * r == x)))
+            ctx.axiom(z3.Implies(x >= 0, z3.And(r >= 0, mul_terms(r, r) == x)))
         return Sym(r)
 
     def exp(self):
@@ -523,6 +563,7 @@ class Explorer:
         self._axioms = set()
         self.notes = {}
         self.rnd_mode = False
+        self.mul_abstract = False
         self.rnd_pairs = True
         self.rnd_terms = []
         self.scratch = {}
@@ -717,8 +758,12 @@ class Explorer:
                 ob[1] += 1
                 return True
             if r == z3.unknown:
-                self.incomplete = self.incomplete or f"solver unknown on obligation {label}"
-                return False
+                # sat-side fallback: pin the inputs to random small rationals (ground query, UFs stay free); a model found this
+                # way is still confirmed by replay. The unsat side is never decided this way.
+                r = self._random_model(neg, extra)
+                if r != z3.sat:
+                    self.incomplete = self.incomplete or f"solver unknown on obligation {label}"
+                    return False
             m = self.solver.model()
             vals = self.model_values(m)
             hit = None
@@ -753,6 +798,22 @@ class Explorer:
             self.known_hits.append((label, hit[0], vals))
             extra.append(z3.Not(hit[1]))
         return False
+
+    def _random_model(self, neg, extra, tries=24):
+        import random
+
+        rnd = random.Random(len(self.inputs) * 7919 + self.stats.paths)
+        for _ in range(tries):
+            pins = []
+            for k, v in self.inputs.items():
+                kind = v.sort().kind()
+                if kind == z3.Z3_REAL_SORT:
+                    pins.append(v == z3.RealVal(str(Fraction(rnd.randint(-24, 24), rnd.choice([1, 2, 4, 8])))))
+                elif kind == z3.Z3_INT_SORT:
+                    pins.append(v == rnd.randint(0, 6))
+            if self._check(neg, *extra, *pins) == z3.sat:
+                return z3.sat  # self.solver.model() is the model of this last check
+        return z3.unknown
 
     def fail(self, label, detail=""):
         """Unconditional violation on this (feasible) path."""
@@ -790,6 +851,7 @@ class Explorer:
             self._axioms = set()
             self.rnd_terms = []
             self.rnd_mode = False
+            self.mul_abstract = False
             self.scratch = {}
             prev, _CUR = _CUR, self
             try:
